@@ -9,7 +9,7 @@ from multidecoder.node import Node
 from multidecoder.registry import decoder
 from multidecoder.xor_helper import apply_xor_key, get_xorkey
 
-HEX_RE = rb"((?:[a-f0-9]{2}){10,}|(?:[A-F0-9]{2}){10,})"
+HEX_RE = rb"((?![0-9]*[A-F])(?:[a-f0-9]{2}){10,}|(?:[A-F0-9]{2}){10,})"
 HEX_SPACE_RE = rb"(?i)(?:[a-f0-9]{2}\s+){9,}[a-f0-9]{2}"
 HEX_COMMA_RE = rb"(?i)(?:[a-f0-9]{2}\s*,\s*){9,}[a-f0-9]{2}"
 FROMHEXSTRING_RE = rb"(?i)(\[System.Convert\]::)?FromHexString\('" + HEX_RE + rb"'\)"
